@@ -678,6 +678,7 @@ class HealCtx(FsmCtx):
                 self.stopped_at_switch = True
             self.t_switch = w.now()
             w.handler_fail_in = None        # the application's storage works again
+            w.take_sockfail()               # ... and so does setsockopt
             self.first_coop_cid = len(w.conns)
             # a pending attempt of the adversarial phase is simply answered by the now cooperative peer
             for c in w.live_conns():
@@ -788,8 +789,8 @@ class HealProfile(FsmProfile):
     rule = ("one run = adversarial prefix of 0-60 ops over the C01 alphabet (operator never leaves the peer stopped; in 35 % of the runs the application handler raises ENOSPC at a few message callbacks), then the "
             "peer turns cooperative: resets old connections (30 % of runs: a connection the agent waits on in OpenSent is instead dead -- nothing ever arrives on it -- and the bound grows by the 240 s OpenSent hold timer), accepts connects within <=1 s, validates the agent's OPEN like a "
             "real router, answers with a valid OPEN and KEEPALIVEs every H/3 for 3 hold times; non-trivial = healed to "
-            "Established; distinct = distinct prefix cell sequence + switch state")
-    probes = ["gen:close_of_old_connection_completes_after_recovery", "op:hfail", "handler_fault_fired:keepalive_received", "handler_fault_fired:send_open", "handler_fault_fired:open_received", "switch_with_dead_connection_in_OpenSent", "gen:default_handler_runs", "healed", "stayed_up_3H", "switch_in_IDLE", "switch_in_CONNECT", "switch_in_OPENSENT", "switch_in_OPENCONFIRM",
+            "Established; distinct = distinct prefix cell sequence + switch state; 12 % of the runs configure TCP-MD5 and let setsockopt fail on single attempts of the adversarial phase")
+    probes = ["op:sockfail", "gen:close_of_old_connection_completes_after_recovery", "op:hfail", "handler_fault_fired:keepalive_received", "handler_fault_fired:send_open", "handler_fault_fired:open_received", "switch_with_dead_connection_in_OpenSent", "gen:default_handler_runs", "healed", "stayed_up_3H", "switch_in_IDLE", "switch_in_CONNECT", "switch_in_OPENSENT", "switch_in_OPENCONFIRM",
               "switch_in_ESTABLISHED", "switch_during_close_completion", "ev:open_err6", "ev:open_hold0"]
 
     def gen_config(self, rng, idx, tier):
@@ -807,6 +808,10 @@ class HealProfile(FsmProfile):
             # the application handler raises (storage full) now and then during the adversarial phase
             cfg["p_hfail"] = rng.pick([0.03, 0.08, 0.2])
             cfg["hfail_everywhere"] = False
+        if rng.chance(0.12):
+            # TCP-MD5 configured; setsockopt(TCP_MD5SIG) fails on single attempts of the adversarial phase
+            cfg["md5"] = "s3cr3t"
+            cfg["p_sockfail"] = rng.pick([0.05, 0.15, 0.3])
         # bias: unacceptable / unusual OPENs in the prefix (the "poisoned value" class)
         cfg["peer_open"] = base.gen_open(rng, cfg, "valid", hold=cfg["peer_hold"]).hex()
         if rng.chance(0.1):
